@@ -1,4 +1,442 @@
-import AwModel.Store.Sqlite
-/-! # C12 — placeholder while the theorems are being written (no claims yet) -/
+import AwProofs.Lemmas.QueryBucketWindow
+import AwProofs.Lemmas.HeapQuery
+/-!
+# C12 — queries only read: bucket data is unchanged and scoped to the query window
+
+Property theorems only (proofs are in `Lemmas/QueryBuiltins.lean`, `Lemmas/QueryBucketWindow.lean`,
+`Lemmas/HeapQuery.lean`).
+
+**Shape of the argument.**
+1. *Who gets the datastore.* `q2_function.g` drops the datastore argument for every function whose
+   signature has no `Datastore` parameter. On the registry GENERATED from `aw_query.functions`,
+   exactly `find_bucket`, `query_bucket`, `query_bucket_eventcount` keep it
+   (`only_three_builtins_take_the_datastore`, by `decide` — a fourth datastore-taking builtin in
+   the source makes this file fail to build); every other builtin is called with its interpreted
+   argument values and nothing else (`others_receive_values_only`,
+   `others_receive_exactly_their_arguments`).
+2. *What the three do with it.* Their bodies (`AwModel/Query/Builtins.lean`) are functions of the
+   backend's READ interface `Reads D` (`buckets`, `get_events`, `get_eventcount`, `get_metadata`)
+   and of nothing else. `query_is_a_function_of_reads`: two stores that answer those reads alike
+   give the same query result. The result type of `runQuery` is `Except Err Val` and the result
+   types of the builtins are `Except BErr (List (Ev D))` / `Nat` / `String`: no store occurs in
+   them, so by construction a query — successful or failing — has no way to hand back a changed
+   store; the store a query runs against is the same value before and after.
+3. *Window scoping.* `query_bucket_is_windowed_get_B`, `query_bucket_eventcount_is_count_B`
+   (B = sqlite, memory, peewee): inside a query, `query_bucket(b)` is the backend's
+   `get_events(b, -1, …)` on the window rounded by `Bucket.get`, i.e. exactly what a direct
+   `Bucket.get(starttime, endtime)` computes, and `query_bucket_eventcount(b)` is the backend's
+   `get_eventcount` on the unrounded window; an unlisted bucket is a `QueryFunctionException`.
+   `query_bucket_in_query` / `query_bucket_eventcount_in_query` connect this to `interp` on the
+   generated registry. With the read theorems of C03: everything returned reaches into the rounded
+   window (within 1 ms of the requested one), everything stored that reaches into the requested
+   window is returned, the count is the length of the direct read and never exceeds the number of
+   events `query_bucket` returns. Hypotheses carried over from C03: peewee — coherent key cache
+   (`CacheOk`), events up to 24 h long for completeness, results clipped to the window; sqlite —
+   none (the epoch clause of C03 concerns reads without a start bound; a query always has one).
+4. *Objects (memory backend).* The only backend that keeps Python objects is the memory one; a
+   builtin that "annotates, clears or re-times events in place" mutates objects it was handed by a
+   read. `queries_only_read_heap`: from every reachable state of the heap model, every sequence of
+   read API calls and client mutations of held objects leaves `observe` (everything reads can
+   return, by value) unchanged — the reads hand out fresh deep copies, the store dict is not
+   touched, and no held object is reachable from the store (C01's separation invariant:
+   `Heap.mutate_observe`, the lemma behind `C01.store_owns_copy` / `store_owns_copy_step`). A run
+   that raises midway is a shorter sequence. `reads_hand_out_fresh_copies`: the objects the reads
+   return are allocated by the call, client-held and not reachable from the store. The sqlite and peewee backends build fresh `Event`
+   objects from table rows on every read (value models: `Sqlite.getEvents` / `Peewee.getEvents`
+   return values computed from the rows), so there is no shared object to mutate and nothing to
+   prove at the object level.
+
+**The window is a parameter.** The interpreter model hands the namespace to a builtin as the opaque
+token `Val.ns`; `S`, `E` are the instants `namespace["STARTTIME"]`, `namespace["ENDTIME"]` denote
+at the call (DESIGN §8 C12: a program that rebinds these names moves its own window).
+-/
 namespace AwProofs.C12
+open Aw Aw.Store Aw.Query
+
+variable {D : Type}
+
+/-! ## 1. who receives the datastore -/
+
+/-- on the generated registry the datastore is passed to `find_bucket`, `query_bucket` and
+    `query_bucket_eventcount` only -/
+theorem only_three_builtins_take_the_datastore :
+    ∀ e ∈ Registry.registry, e.takesDs = true →
+      e.name = nameFindBucket ∨ e.name = nameQueryBucket ∨ e.name = nameQueryBucketEventcount := by
+  decide
+
+/-- … and these three are registered, with the parameter lists `dsApply` models -/
+theorem datastore_builtins_registered :
+    (∃ e, lookupEntry Registry.registry nameFindBucket = some e ∧ e.takesDs = true ∧ e.takesNs = false) ∧
+    (∃ e, lookupEntry Registry.registry nameQueryBucket = some e ∧ e.takesDs = true ∧ e.takesNs = true) ∧
+    (∃ e, lookupEntry Registry.registry nameQueryBucketEventcount = some e ∧ e.takesDs = true ∧
+      e.takesNs = true) :=
+  ⟨⟨_, lookup_findBucket, rfl, rfl⟩, ⟨_, lookup_queryBucket, rfl, rfl⟩,
+   ⟨_, lookup_queryBucketEventcount, rfl, rfl⟩⟩
+
+/-- an entry without the datastore flag is called with the namespace (if flagged) and the
+    interpreted argument values only: that is the tuple `callEntry` typechecks and hands to the
+    body, and the datastore token is not in it unless an argument value is that token -/
+theorem others_receive_values_only (apply : Apply) (e : Entry) (h : e.takesDs = false)
+    (args : List Val) :
+    inject e args = (if e.takesNs then Val.ns :: args else args) ∧
+    callEntry apply e args =
+      (match (if e.typechecked then typecheck e.params (if e.takesNs then Val.ns :: args else args)
+              else .ok ()) with
+       | .error err => .error err
+       | .ok () =>
+         if e.accepts (if e.takesNs then Val.ns :: args else args).length
+         then apply e.name (if e.takesNs then Val.ns :: args else args)
+         else .error (.py .typeError)) ∧
+    ((∀ a ∈ args, a ≠ Val.ds) → ∀ a ∈ inject e args, a ≠ Val.ds) := by
+  have hi := inject_noDs e h args
+  refine ⟨hi, ?_, ?_⟩
+  · unfold callEntry; rw [hi]; rfl
+  · intro ha a hm
+    rw [hi] at hm
+    cases hns : e.takesNs <;> simp only [hns, if_true, if_false, Bool.false_eq_true] at hm
+    · exact ha a hm
+    · rcases List.mem_cons.mp hm with rfl | hm
+      · intro hc; cases hc
+      · exact ha a hm
+
+/-- on the generated registry no other builtin takes the namespace either: each receives exactly
+    its interpreted arguments -/
+theorem others_receive_exactly_their_arguments :
+    ∀ e ∈ Registry.registry, e.takesDs = false → ∀ args : List Val, inject e args = args := by
+  have h : ∀ e ∈ Registry.registry, e.takesDs = false → e.takesNs = false := by decide
+  intro e he hd args
+  rw [inject_noDs e hd, h e he hd]
+  rfl
+
+/-! ## 2. a query is a function of the reads -/
+
+/-- if two stores answer alike to the listing, to `get_events(b, -1, rounded window)`, to
+    `get_eventcount(b, window)` and to `get_metadata(b)["hostname"]` for every listed bucket `b`,
+    every query gives the same result (value or error) on both — for every registry, every
+    semantics `other` of the remaining builtins, every environment and every query text.
+    (`runQuery … : Except Err Val`: no store in the result.) -/
+theorem query_is_a_function_of_reads (r r' : Reads D) (S E : Int) (h : ReadsAgree r r' S E)
+    (reg : List Entry) (enc : Enc D) (other : Apply) (env : Ns) (text : Str) :
+    runQuery reg (dsApply r enc S E other) env text =
+      runQuery reg (dsApply r' enc S E other) env text := by
+  rw [dsApply_congr h]
+
+/-- the same for extensionally equal read interfaces -/
+theorem query_is_a_function_of_reads_ext (r r' : Reads D) (hb : r.buckets = r'.buckets)
+    (hg : ∀ b l st en, r.get b l st en = r'.get b l st en)
+    (hc : ∀ b st en, r.count b st en = r'.count b st en)
+    (hh : ∀ b, r.hostname b = r'.hostname b)
+    (S E : Int) (reg : List Entry) (enc : Enc D) (other : Apply) (env : Ns) (text : Str) :
+    runQuery reg (dsApply r enc S E other) env text =
+      runQuery reg (dsApply r' enc S E other) env text :=
+  query_is_a_function_of_reads r r' S E (ReadsAgree.of_ext S E hb hg hc hh) reg enc other env text
+
+/-! ## 3. window scoping -/
+
+/-- inside a query (generated registry), `query_bucket(t)` with `t` evaluating to the string `b`
+    yields the events `queryBucket` returns, leaves the namespace as the argument left it, and
+    fails with the builtin's error otherwise -/
+theorem query_bucket_in_query (r : Reads D) (enc : Enc D) (S E : Int) (other : Apply) (t : Tok)
+    (ns ns' : Ns) (b : Str)
+    (ht : interp Registry.registry (dsApply r enc S E other) t ns = .ok (.str b, ns')) :
+    interp Registry.registry (dsApply r enc S E other) (.call nameQueryBucket [t]) ns =
+      (catchTypeError (match queryBucket r (String.ofList b) S E with
+        | .ok es => .ok (.list (es.map enc.ev))
+        | .error e => .error (enc.err e))).map (fun v => (v, ns')) :=
+  interp_queryBucket r enc S E other t ns ns' b ht
+
+/-- … and `query_bucket_eventcount(t)` the number `queryBucketEventcount` returns -/
+theorem query_bucket_eventcount_in_query (r : Reads D) (enc : Enc D) (S E : Int) (other : Apply)
+    (t : Tok) (ns ns' : Ns) (b : Str)
+    (ht : interp Registry.registry (dsApply r enc S E other) t ns = .ok (.str b, ns')) :
+    interp Registry.registry (dsApply r enc S E other) (.call nameQueryBucketEventcount [t]) ns =
+      (catchTypeError (match queryBucketEventcount r (String.ofList b) S E with
+        | .ok n => .ok (.int n)
+        | .error e => .error (enc.err e))).map (fun v => (v, ns')) :=
+  interp_queryBucketEventcount r enc S E other t ns ns' b ht
+
+/-- `find_bucket(t)` yields a listed bucket id containing the filter string (with the requested
+    hostname, if one is given) -/
+theorem find_bucket_returns_listed (r : Reads D) (f : String) (host : Option String) (b : String)
+    (h : findBucket r f host = .ok b) :
+    b ∈ r.buckets ∧ isInfixB f.toList b.toList = true ∧
+      (∀ h, truthyHost host = some h → r.hostname b = some h) :=
+  findBucket_ok r f host b h
+
+/-- the rounding of `AwModel/Query/Builtins.lean` is C03's `roundWin` -/
+theorem window_is_bucket_get_rounding (st en : Option Int) :
+    Aw.Query.roundWin st en = Aw.Store.roundWin st en := rfl
+
+/-! ### sqlite -/
+
+/-- "listed by `buckets()`" is "the bucket exists" -/
+theorem listed_iff_exists_sqlite (s : Sqlite.St D) (b : String) :
+    b ∈ (Reads.ofSqlite s).buckets ↔ (Sqlite.view s b).isSome = true := listed_sqlite s b
+
+/-- `query_bucket(b)` = `Bucket.get(starttime=S, endtime=E)`: the backend read, unlimited, on the
+    rounded window; `QueryFunctionException` for a bucket that does not exist -/
+theorem query_bucket_is_windowed_get_sqlite (s : Sqlite.St D) (b : String) (S E : Int) :
+    queryBucket (Reads.ofSqlite s) b S E =
+      if (Sqlite.view s b).isSome then
+        .ok (Sqlite.getEvents s b (-1) (Store.roundWin (some S) (some E)).1 (Store.roundWin (some S) (some E)).2)
+      else .error (.func (noBucketMsg b)) := queryBucket_sqlite s b S E
+
+/-- `query_bucket_eventcount(b)` = `get_eventcount(starttime=S, endtime=E)` (unrounded) -/
+theorem query_bucket_eventcount_is_count_sqlite (s : Sqlite.St D) (b : String) (S E : Int) :
+    queryBucketEventcount (Reads.ofSqlite s) b S E =
+      if (Sqlite.view s b).isSome then .ok (Sqlite.getEventcount s b (some S) (some E))
+      else .error (.func (noBucketMsg b)) := queryBucketEventcount_sqlite s b S E
+
+/-- every event returned is a stored event of that bucket reaching into the rounded window, hence
+    to within 1 ms into the requested one -/
+theorem query_bucket_sound_sqlite (s : Sqlite.St D) (b : String) (S E : Int) (r : List (Ev D))
+    (hr : queryBucket (Reads.ofSqlite s) b S E = .ok r) (x : Ev D) (hx : x ∈ r) :
+    ∃ m es, Sqlite.view s b = some (m, es) ∧ x ∈ es ∧
+      inWindow (Store.roundWin (some S) (some E)).1 (Store.roundWin (some S) (some E)).2 x = true ∧
+      S - 1000 < x.ts + x.dur ∧ x.ts ≤ E + 1000 :=
+  queryBucket_sound_sqlite s b S E r hr x hx
+
+/-- every stored event reaching into the requested window is returned -/
+theorem query_bucket_complete_sqlite (s : Sqlite.St D) (b : String) (S E : Int) (m : Meta)
+    (es : List (Ev D)) (hv : Sqlite.view s b = some (m, es)) (e : Ev D) (he : e ∈ es)
+    (hw : inWindow (some S) (some E) e = true) :
+    ∃ r, queryBucket (Reads.ofSqlite s) b S E = .ok r ∧ e ∈ r :=
+  queryBucket_complete_sqlite s b S E m es hv e he hw
+
+/-- the count is the length of the direct read of the requested window and never exceeds the
+    number of events `query_bucket` returns -/
+theorem eventcount_matches_sqlite (s : Sqlite.St D) (b : String) (S E : Int) (n : Nat)
+    (hn : queryBucketEventcount (Reads.ofSqlite s) b S E = .ok n) :
+    n = (Sqlite.getEvents s b (-1) (some S) (some E)).length ∧
+    ∃ r, queryBucket (Reads.ofSqlite s) b S E = .ok r ∧ n ≤ r.length :=
+  queryBucketEventcount_matches_sqlite s b S E n hn
+
+/-! ### memory -/
+
+theorem listed_iff_exists_memory (s : Memory.St D) (b : String) :
+    b ∈ (Reads.ofMemory s).buckets ↔ (Memory.view s b).isSome = true := listed_memory s b
+
+theorem query_bucket_is_windowed_get_memory (s : Memory.St D) (b : String) (S E : Int) :
+    queryBucket (Reads.ofMemory s) b S E =
+      if (Memory.view s b).isSome then
+        BErr.lift (Memory.getEvents s b (-1) (Store.roundWin (some S) (some E)).1 (Store.roundWin (some S) (some E)).2)
+      else .error (.func (noBucketMsg b)) := queryBucket_memory s b S E
+
+theorem query_bucket_eventcount_is_count_memory (s : Memory.St D) (b : String) (S E : Int) :
+    queryBucketEventcount (Reads.ofMemory s) b S E =
+      if (Memory.view s b).isSome then BErr.lift (Memory.getEventcount s b (some S) (some E))
+      else .error (.func (noBucketMsg b)) := queryBucketEventcount_memory s b S E
+
+/-- on an existing bucket neither builtin raises -/
+theorem query_bucket_total_memory (s : Memory.St D) (b : String) (S E : Int)
+    (h : (Memory.view s b).isSome = true) :
+    (∃ r, queryBucket (Reads.ofMemory s) b S E = .ok r) ∧
+    (∃ n, queryBucketEventcount (Reads.ofMemory s) b S E = .ok n) :=
+  queryBucket_total_memory s b S E h
+
+theorem query_bucket_sound_memory (s : Memory.St D) (b : String) (S E : Int) (r : List (Ev D))
+    (hr : queryBucket (Reads.ofMemory s) b S E = .ok r) (x : Ev D) (hx : x ∈ r) :
+    ∃ m es, Memory.view s b = some (m, es) ∧ x ∈ es ∧
+      inWindow (Store.roundWin (some S) (some E)).1 (Store.roundWin (some S) (some E)).2 x = true ∧
+      S - 1000 < x.ts + x.dur ∧ x.ts ≤ E + 1000 :=
+  queryBucket_sound_memory s b S E r hr x hx
+
+theorem query_bucket_complete_memory (s : Memory.St D) (b : String) (S E : Int) (m : Meta)
+    (es : List (Ev D)) (hv : Memory.view s b = some (m, es)) (e : Ev D) (he : e ∈ es)
+    (hw : inWindow (some S) (some E) e = true) :
+    ∃ r, queryBucket (Reads.ofMemory s) b S E = .ok r ∧ e ∈ r :=
+  queryBucket_complete_memory s b S E m es hv e he hw
+
+theorem eventcount_matches_memory (s : Memory.St D) (b : String) (S E : Int) (n : Nat)
+    (hn : queryBucketEventcount (Reads.ofMemory s) b S E = .ok n) :
+    (∃ r0, Memory.getEvents s b (-1) (some S) (some E) = .ok r0 ∧ n = r0.length) ∧
+    ∃ r, queryBucket (Reads.ofMemory s) b S E = .ok r ∧ n ≤ r.length :=
+  queryBucketEventcount_matches_memory s b S E n hn
+
+/-! ### peewee (`dec` is the row decoder: identity, or the duration codec of C01) -/
+
+theorem listed_iff_exists_peewee (s : Peewee.St D) (dec : Ev D → Ev D) (b : String) :
+    b ∈ (Reads.ofPeewee s dec).buckets ↔ (Peewee.view s b).isSome = true := listed_peewee s dec b
+
+theorem query_bucket_is_windowed_get_peewee (s : Peewee.St D) (dec : Ev D → Ev D) (b : String)
+    (S E : Int) :
+    queryBucket (Reads.ofPeewee s dec) b S E =
+      if (Peewee.view s b).isSome then
+        BErr.lift (Peewee.getEvents s b (-1) (Store.roundWin (some S) (some E)).1
+          (Store.roundWin (some S) (some E)).2 dec)
+      else .error (.func (noBucketMsg b)) := queryBucket_peewee s dec b S E
+
+theorem query_bucket_eventcount_is_count_peewee (s : Peewee.St D) (dec : Ev D → Ev D) (b : String)
+    (S E : Int) :
+    queryBucketEventcount (Reads.ofPeewee s dec) b S E =
+      if (Peewee.view s b).isSome then BErr.lift (Peewee.getEventcount s b (some S) (some E))
+      else .error (.func (noBucketMsg b)) := queryBucketEventcount_peewee s dec b S E
+
+/-- with a coherent key cache neither builtin raises on an existing bucket -/
+theorem query_bucket_total_peewee (s : Peewee.St D) (hc : Peewee.CacheOk s) (dec : Ev D → Ev D)
+    (b : String) (S E : Int) (h : (Peewee.view s b).isSome = true) :
+    (∃ r, queryBucket (Reads.ofPeewee s dec) b S E = .ok r) ∧
+    (∃ n, queryBucketEventcount (Reads.ofPeewee s dec) b S E = .ok n) :=
+  queryBucket_total_peewee s hc dec b S E h
+
+/-- every event returned is a stored event reaching into the rounded window, cut to it -/
+theorem query_bucket_sound_peewee (s : Peewee.St D) (hc : Peewee.CacheOk s) (dec : Ev D → Ev D)
+    (b : String) (S E : Int) (r : List (Ev D))
+    (hr : queryBucket (Reads.ofPeewee s dec) b S E = .ok r) (x : Ev D) (hx : x ∈ r) :
+    ∃ m es e, Peewee.view s b = some (m, es) ∧ e ∈ es ∧
+      x = Peewee.clip (Store.roundWin (some S) (some E)).1 (Store.roundWin (some S) (some E)).2 (dec e) ∧
+      inWindow (Store.roundWin (some S) (some E)).1 (Store.roundWin (some S) (some E)).2 e = true ∧
+      S - 1000 < e.ts + e.dur ∧ e.ts ≤ E + 1000 :=
+  queryBucket_sound_peewee s hc dec b S E r hr x hx
+
+/-- every stored event up to 24 h long reaching into the requested window is returned (clipped) -/
+theorem query_bucket_complete_peewee (s : Peewee.St D) (hc : Peewee.CacheOk s) (dec : Ev D → Ev D)
+    (b : String) (S E : Int) (m : Meta) (es : List (Ev D)) (hv : Peewee.view s b = some (m, es))
+    (e : Ev D) (he : e ∈ es) (hw : inWindow (some S) (some E) e = true) (hd : e.dur ≤ 86400000000) :
+    ∃ r, queryBucket (Reads.ofPeewee s dec) b S E = .ok r ∧
+      Peewee.clip (Store.roundWin (some S) (some E)).1 (Store.roundWin (some S) (some E)).2 (dec e) ∈ r :=
+  queryBucket_complete_peewee s hc dec b S E m es hv e he hw hd
+
+theorem eventcount_matches_peewee (s : Peewee.St D) (dec : Ev D → Ev D) (b : String)
+    (S E : Int) (n : Nat) (hn : queryBucketEventcount (Reads.ofPeewee s dec) b S E = .ok n) :
+    (∃ r0, Peewee.getEvents s b (-1) (some S) (some E) dec = .ok r0 ∧ n = r0.length) ∧
+    ∃ r, queryBucket (Reads.ofPeewee s dec) b S E = .ok r ∧ n ≤ r.length :=
+  queryBucketEventcount_matches_peewee s dec b S E n hn
+
+/-! ## 4. objects: the memory backend's heap -/
+
+open Heap in
+/-- a read API call (`get_events`, `get_event`, `get_metadata`, `buckets`; any arguments) changes
+    nothing reads can return, keeps the separation invariant and leads to a reachable state -/
+theorem read_api_only_reads {s : State} (h : Reachable s) (a : ReadApi) :
+    observe (api s a.toApi).1 = observe s ∧ Sep (api s a.toApi).1 ∧ Reachable (api s a.toApi).1 :=
+  ⟨read_observe (reachable_sep h) a, read_sep (reachable_sep h) a, Reachable.step (.api a.toApi) h⟩
+
+open Heap in
+/-- what the reads hand out are fresh copies: every event object `get_events` returns was allocated
+    by that call (`s.next ≤ r`: it did not exist before), is held by the client afterwards (so the
+    query's transforms may mutate it: the mutations of `queries_only_read_heap` include these), and
+    is not reachable from the store; likewise the object `get_event` returns -/
+theorem reads_hand_out_fresh_copies {s : State} (h : Reachable s) :
+    (∀ b limit st en rs, (api s (.getEvents b limit st en)).2 = .refs rs → ∀ r ∈ rs,
+      s.next ≤ r ∧ (api s (.getEvents b limit st en)).1.client r = true ∧
+      ¬ storeReach (api s (.getEvents b limit st en)).1 r) ∧
+    (∀ b eid r, (api s (.getEvent b eid)).2 = .optRef (some r) →
+      s.next ≤ r ∧ (api s (.getEvent b eid)).1.client r = true ∧
+      ¬ storeReach (api s (.getEvent b eid)).1 r) := by
+  refine ⟨fun b limit st en rs hr r hm => ?_, fun b eid r hr => ?_⟩
+  · obtain ⟨h1, h2⟩ := getEvents_fresh s b limit st en rs hr r hm
+    exact ⟨h1, h2, held_not_storeReach (getEvents_sep (reachable_sep h) b limit st en) h2⟩
+  · obtain ⟨h1, h2⟩ := getEvent_fresh s b eid r hr
+    exact ⟨h1, h2, held_not_storeReach (getEvent_sep (reachable_sep h) b eid) h2⟩
+
+open Heap in
+/-- queries only read (heap level): from every reachable state, every sequence of read API calls
+    and client mutations (set id / timestamp / duration, mutate or replace the data dict at any
+    depth, overwrite metadata entries, create objects — each on objects the client holds at that
+    point, which includes everything the reads have handed out so far) leaves everything reads can
+    return exactly as it was. `qrun` uses the trace semantics of C01 (`Heap.step`): a mutation of
+    an object the client does not hold is not a step it can take. -/
+theorem queries_only_read_heap {s : State} (h : Reachable s) (steps : List QStep) :
+    observe (qrun s steps) = observe s :=
+  qrun_observe steps (reachable_sep h)
+
+open Heap in
+/-- the same with the side condition explicit: when every mutation acts on refs the client holds at
+    that point (`HeldAlong`), applying the mutations as they are changes nothing reads return -/
+theorem queries_only_read_heap_held {s : State} (h : Reachable s) (steps : List QStep)
+    (hh : HeldAlong s steps) : observe (qrunRaw s steps) = observe s := by
+  rw [qrunRaw_eq_qrun steps s hh]
+  exact qrun_observe steps (reachable_sep h)
+
+open Heap in
+/-- query steps lead to reachable, separated states (so the statement applies again after them) -/
+theorem query_steps_stay_reachable {s : State} (h : Reachable s) (steps : List QStep) :
+    Reachable (qrun s steps) ∧ Sep (qrun s steps) :=
+  ⟨qrun_reachable steps h, qrun_sep steps (reachable_sep h)⟩
+
+open Heap in
+/-- hence every read interface built from the observation is the same before, during and after the
+    query: later `query_bucket` calls of the same query see the same data -/
+theorem reads_stable_during_query {s : State} (h : Reachable s) (steps : List QStep) :
+    Reads.ofMemory (observe (qrun s steps)) = Reads.ofMemory (observe s) := by
+  rw [queries_only_read_heap h steps]
+
+/-! ## the hypotheses are satisfiable (non-vacuity) -/
+
+/-- memory: two events, the window [6 ms, 20 ms] reaches the second only; the count agrees; a
+    missing bucket is a function error -/
+example :
+    let s : Memory.St Nat := [("b", (default, [⟨some 0, 0, 5000, 1⟩, ⟨some 1, 10000, 1000, 2⟩]))]
+    queryBucket (Reads.ofMemory s) "b" 6000 20000 = .ok [⟨some 1, 10000, 1000, 2⟩] ∧
+    queryBucketEventcount (Reads.ofMemory s) "b" 6000 20000 = .ok 1 ∧
+    queryBucket (Reads.ofMemory s) "c" 6000 20000 = .error (.func (noBucketMsg "c")) ∧
+    findBucket (Reads.ofMemory s) "b" none = .ok "b" := by
+  intro s
+  exact ⟨rfl, rfl, rfl, rfl⟩
+
+/-- sqlite: two buckets sharing the event table -/
+example :
+    let s : Sqlite.St Nat :=
+      { buckets := [⟨1, "a", default⟩, ⟨2, "b", default⟩],
+        events := [⟨1, 1, 0, 5000, 7⟩, ⟨2, 2, 10000, 11000, 8⟩, ⟨3, 1, 12000, 13000, 9⟩],
+        seqB := 2, seqE := 3 }
+    queryBucket (Reads.ofSqlite s) "a" 6000 20000 = .ok [⟨some 3, 12000, 1000, 9⟩] ∧
+    queryBucketEventcount (Reads.ofSqlite s) "a" 6000 20000 = .ok 1 ∧
+    queryBucket (Reads.ofSqlite s) "zz" 6000 20000 = .error (.func (noBucketMsg "zz")) := by
+  intro s
+  exact ⟨rfl, rfl, rfl⟩
+
+/-- peewee: the event overlapping the window start comes back clipped to the rounded window -/
+example :
+    let s : Peewee.St Nat :=
+      { buckets := [⟨1, "a", default⟩], events := [⟨1, 1, 0, 7000, 7⟩, ⟨2, 1, 30000, 1000, 8⟩],
+        keys := [("a", 1)] }
+    Peewee.CacheOk s ∧
+    queryBucket (Reads.ofPeewee s) "a" 6500 20000 = .ok [⟨some 1, 6000, 1000, 7⟩] ∧
+    queryBucketEventcount (Reads.ofPeewee s) "a" 6500 20000 = .ok 1 := by
+  exact ⟨Peewee.cacheOk_of_keys _ rfl, rfl, rfl⟩
+
+/-- `ReadsAgree` between different states: a store whose only event lies outside the query window
+    answers the query's reads like a store with an empty bucket — every query over that window
+    gives the same result on both -/
+example : ReadsAgree (Reads.ofMemory ([("b", (default, [⟨some 0, 5000000, 1000, 1⟩]))] : Memory.St Nat))
+    (Reads.ofMemory ([("b", (default, []))] : Memory.St Nat)) 0 1000 := by
+  refine ⟨rfl, fun b hb => ?_, fun b hb => ?_, fun b hb => ?_⟩ <;>
+  · have : b = "b" := by simpa [Reads.ofMemory, Memory.bucketsOf] using hb
+    subst this; rfl
+
+/-- inside a query on the generated registry: `query_bucket("b")` over the window [6 ms, 20 ms]
+    evaluates to the list of the one intersecting event, the namespace is untouched -/
+example (enc : Enc Nat) (other : Apply) (ns : Ns) :
+    let s : Memory.St Nat := [("b", (default, [⟨some 0, 0, 5000, 1⟩, ⟨some 1, 10000, 1000, 2⟩]))]
+    interp Registry.registry (dsApply (Reads.ofMemory s) enc 6000 20000 other)
+      (.call nameQueryBucket [.str ['b']]) ns = .ok (.list [enc.ev ⟨some 1, 10000, 1000, 2⟩], ns) := by
+  intro s
+  rw [query_bucket_in_query _ enc 6000 20000 other (.str ['b']) ns ns ['b'] (by rw [interp])]
+  rfl
+
+open Heap in
+/-- heap: a reachable state with one stored event; the query reads the bucket (the copy handed out
+    is event 8 with data dict 7), then re-times, annotates and clears the copy, reads again and
+    fetches the metadata: all mutations are ones the client can take, the copy did change, the
+    store's view did not -/
+example :
+    let tr : List Step := [.api (.createBucket "b" ⟨none, "t", "c", "h", "2020", "{}"⟩ none),
+      .mutation (.newEvent none 5 1 "{\"a\":1}"), .api (.insertOne "b" 3)]
+    let s := tr.foldl step {}
+    let q : List QStep := [.read (.getEvents "b" (-1) (some 0) (some 10000)),
+      .mutation (.setTs 8 99), .mutation (.setDict 7 "{\"$category\":[\"x\"]}"),
+      .mutation (.setDur 8 0), .read (.getEvents "b" (-1) (some 0) (some 10000)),
+      .read (.getMetadata "b"), .mutation (.setDict 7 "{}")]
+    Reachable s ∧ HeldAlong s q ∧ (evVal (qrun s q) 8).ts = 99 ∧
+    (observe s).map (fun p => p.2.2) = [[⟨some 0, 5, 1, "{\"a\":1}"⟩]] ∧
+    observe (qrunRaw s q) = observe s := by
+  intro tr s q
+  have hr : Reachable s :=
+    .step (.api (.insertOne "b" 3)) (.step (.mutation (.newEvent none 5 1 "{\"a\":1}"))
+      (.step (.api (.createBucket "b" ⟨none, "t", "c", "h", "2020", "{}"⟩ none)) .init))
+  have hq : HeldAlong s q := by decide
+  exact ⟨hr, hq, by decide, by decide, queries_only_read_heap_held hr q hq⟩
+
 end AwProofs.C12
